@@ -113,12 +113,16 @@ def observe(thunk) -> str:
     return f"exception:{o['error']}: {o['text']}"
 
 
-def run_program(ch: Choices, params: dict, name: str) -> dict:
-    """Generates one program from the choice source and observes it."""
+def run_program(ch: Choices, params: dict, name: str, idx: int = 0) -> dict:
+    """Generates one program from the choice source and observes it.  The mistake kind is
+    stratified over the program index (every window of len(C10_MISTAKES) consecutive
+    programs covers all kinds), so that a wall budget that stops exploration early - or a
+    loaded machine - still reaches every kind of ambiguity; everything else is drawn."""
     k = ch.draw(10, "has_mistake")
     mistake = None
     if k >= 3:
-        mistake = {"kind": ch.pick(C10_MISTAKES, "mistake"), "k": ch.rng_int(2, 3, "k")}
+        ch.pick(C10_MISTAKES, "mistake")       # (draw kept for the stability of old replays)
+        mistake = {"kind": C10_MISTAKES[idx % len(C10_MISTAKES)], "k": ch.rng_int(2, 3, "k")}
     g = gen.ProgGen(ch, {"max_stmts": params.get("max_stmts", 12), "allow_capture": True})
     prog = g.module(mistake=mistake)
     obs = []
@@ -184,7 +188,7 @@ def run_job(job: dict) -> dict:
             A._VERIF_SCHED = None     # the shipped container pops on its own
         if kind == "gen":
             ch = Choices(replay=choices) if choices is not None else Choices(seed=val)
-            r = run_program(ch, job.get("params", {}), f"c10_p{idx}")
+            r = run_program(ch, job.get("params", {}), f"c10_p{idx}", idx)
             r["choices"] = ch.record if job.get("want_choices") else None
         elif kind == "itest":
             r = run_itest(val)
